@@ -34,6 +34,8 @@ ASSUMPTIONS = [
     "equivalences not counted as a change: tuple==list; absent option == None == its spec default (bool flags, match=exact, invoke=single); empty args/kwargs == absent; forward_for [] == absent; free-text message '' == absent; empty authextra/extra/custom dict == absent; float -0.0 == 0.0",
     "JSON: text strings starting with U+0000 are not sent (reserved prefix of the WAMP JSON binary convention); dict keys are str; no NaN/inf, no subnormal floats (bjdata turns them into Decimal; floats are not in the statement's list), ints limited to +-2^53",
     "admissibility constraints taken from the library's own documented constructor contracts: resume-session needs resume-token, WELCOME.resumable needs resume_token, UNSUBSCRIBED/UNREGISTERED carry a subscription/registration detail only with request==0, opaque payload always comes with enc_algo",
+    "an EMPTY opaque payload (payload=b'' + enc_algo) counts as an admissible payload-transparency triple: the constructors assert only `payload is None or type(payload) == bytes`, parse() accepts and reproduces [.., b''] + enc_algo, and a zero-length body is a legal value for enc_algo='mqtt' (MQTT PUBLISH may carry an empty body) and for any x_ algorithm; its loss is keyed as ONE mechanism per class (C03/<Class>/payload-empty/lost/<where>)",
+    "a null in the Arguments position of a kwargs-only message (what 6 of the 7 payload classes emit and accept) is not asserted against: args None == [] is a documented equivalence of the round trip; only a message the library cannot read back is reported",
     "third-party decoders (stdlib json, msgpack, cbor2, bjdata) are trusted to decide whether produced bytes are well-formed for the is_binary check",
     "both txaio frameworks are used (shards alternate tx/aio); the serializers need one selected because of txaio.time_ns",
 ]
@@ -52,11 +54,14 @@ DECIDING = {
 }
 
 BATCH_SIZES = (1, 2, 3, 17)
+PAYLOAD_TRIPLE = ("payload", "enc_algo", "enc_key", "enc_serializer")
 
 
 def shards(tier, seed):
     n = NSHARDS[tier]
-    return [{"name": "part-%d" % i, "fw": "tx" if i % 2 else "aio", "timeout": 1500,
+    # thorough: half of the shards of each framework run with the pure-Python code paths (AUTOBAHN_USE_NVX=0)
+    return [{"name": "part-%d" % i, "fw": "tx" if i % 2 else "aio", "timeout": 3600,
+             "env": {"AUTOBAHN_USE_NVX": "0"} if (tier == "thorough" and (i // 2) % 2) else {},
              "params": {"part": i, "parts": n, "tier": tier, "seed": seed}} for i in range(n)]
 
 
@@ -92,7 +97,7 @@ class Monitor:
         """Attribute-wise + marshal comparison.  Returns set of attrs that differ."""
         R = self.R
         bad = set()
-        tag = "@payload-empty" if mode == "payload-empty" else ""
+        triple_lost = False      # payload-empty: loss of the payload-transparency triple is ONE mechanism per class
         if type(got_msg).__name__ != spec.name:
             R.violation("C03/%s/class-changed/%s" % (spec.name, where),
                         "message of class %s came back as %s" % (spec.name, type(got_msg).__name__),
@@ -121,7 +126,16 @@ class Monitor:
                     kind = "type-changed"
                 else:
                     kind = "changed"
-                R.violation("C03/%s/%s%s/%s/%s" % (spec.name, a, tag, kind, where),
+                if mode == "payload-empty" and kind == "lost" and a in PAYLOAD_TRIPLE:
+                    if not triple_lost:
+                        triple_lost = True
+                        lost = [x for x in PAYLOAD_TRIPLE if got[x] != expected[x]]
+                        R.violation("C03/%s/payload-empty/lost/%s" % (spec.name, where),
+                                    "%s built with an EMPTY opaque payload (payload=b'') + %s came back as a plain message: %s lost" % (
+                                        spec.name, "+".join(x for x in PAYLOAD_TRIPLE[1:] if expected[x] != ("n",)), ", ".join(lost)),
+                                    {"where": where, "mode": mode, "attrs": lost}, case)
+                    continue
+                R.violation("C03/%s/%s/%s/%s" % (spec.name, a, kind, where),
                             "attribute %s.%s: sent %.200r, came back %.200r" % (spec.name, a, e, g),
                             {"where": where, "mode": mode, "attr": a}, case)
         if sent_msg is not None:
@@ -135,7 +149,7 @@ class Monitor:
                 return bad | {"<marshal>"}
             if w1 != w2 and not bad:
                 # (a difference already attributed to an attribute is not reported twice)
-                R.violation("C03/%s/marshal-differs%s/%s" % (spec.name, tag, where),
+                R.violation("C03/%s/marshal-differs/%s" % (spec.name, where),
                             "marshal() before %.300r and after %.300r the round trip differ although all table attributes agree" % (w1, w2),
                             {"where": where, "mode": mode}, case)
                 bad.add("<marshal>")
@@ -225,7 +239,7 @@ class Monitor:
 
     # -- batches --------------------------------------------------------------------------------
     def run_batch(self, items, case):
-        """items: list of (spec, msg, expected, mode, nul_prefix)"""
+        """items: list of (spec, msg, expected, mode, nul_prefix, jenc(fields))"""
         R = self.R
         n = len(items)
         for sid, ser, batched in self.sers:
@@ -365,14 +379,14 @@ def run_shard(params, R):
             ncase += 1
             if not ok:
                 continue      # already reported; do not let one defect show up again as batch/cache noise
-            ring.append((spec, msg, expected, mode, pg.nul_prefix))
+            ring.append((spec, msg, expected, mode, pg.nul_prefix, case["fields"]))
             if len(ring) > 64:
                 ring.pop(rng.randrange(len(ring)))
             if ncase % 7 == 0:
                 n = BATCH_SIZES[(ncase // 7) % len(BATCH_SIZES)]
                 if len(ring) >= n:
                     items = rng.sample(ring, n)
-                    mon.run_batch(items, {"batch": [{"class": it[0].name} for it in items]})
+                    mon.run_batch(items, _batch_case(items))
             if ncase % 5 == 0:
                 mon.cache_attack(spec, f, rng, case, pg.nul_prefix)
     # every batch size with maximally heterogeneous content at least once per shard
@@ -382,13 +396,26 @@ def run_shard(params, R):
             for it in ring:
                 byclass.setdefault(it[0].name, it)
             items = (list(byclass.values()) + ring)[:n]
-            mon.run_batch(items, {"batch": [{"class": it[0].name} for it in items]})
+            mon.run_batch(items, _batch_case(items))
     R.note("serializers", [s[0] for s in mon.sers])
+
+
+def _batch_case(items):
+    return {"batch": [{"class": it[0].name, "mode": it[3], "nul_prefix": it[4], "fields": it[5]} for it in items]}
 
 
 def replay(case, R):
     mon = start(R)
     if mon is None:
+        return
+    if "batch" in case:
+        items = []
+        for b in case["batch"]:
+            spec = G.BY_NAME[b["class"]]
+            f = G.jdec(b["fields"])
+            items.append((spec, G.make(mon.M, mon.Rl, spec.name, f), G.fields_view(spec, f), b.get("mode", "none"),
+                          b.get("nul_prefix", False), b["fields"]))
+        mon.run_batch(items, case)
         return
     if "class" not in case:
         return
